@@ -26,7 +26,7 @@ class BooleanNode(BaseNode):
         """ Set value using value_raw or arbitrary value
         """
         if value is None:  # == None
-            if self.value_raw:
+            if self._has_raw():
                 self.value = BooleanType(self.cast_value())
             else:
                 self.value = None
